@@ -163,10 +163,11 @@ func hostile(c *harness.Ctx, call *Call) {
 func damageOf(call *Call) (kind string, onRequest bool) {
 	for _, e := range call.Exchanges {
 		for _, f := range e.Faults {
-			if strings.HasPrefix(f, "damage-resp") {
+			// only the hostile-network damages (the routing scenario has its own "damage-*" kinds)
+			if strings.HasPrefix(f, "damage-resp-body:") || strings.HasPrefix(f, "damage-resp-id:") {
 				return strings.SplitN(f, ":", 2)[0], false
 			}
-			if strings.HasPrefix(f, "damage-") {
+			if strings.HasPrefix(f, "damage-path:") || strings.HasPrefix(f, "damage-query:") || strings.HasPrefix(f, "damage-body:") {
 				return strings.SplitN(f, ":", 2)[0], true
 			}
 		}
